@@ -52,12 +52,13 @@ Fixpoint rfind (kn : node) (kvs : list (val * val)) (key : string) : option val 
                    end
   end.
 
-(* node.([]byte): the slice type is []byte, spelled []byte or []uint8 *)
+(* node.([]byte): a type assertion, so it goes by type IDENTITY - the unnamed slice type, spelled
+   []byte or []uint8.  A defined type with that underlying type (type Blob []byte), or a slice of a
+   defined byte type (type Octet uint8; []Octet), is not a []byte: it is indexed like any slice. *)
 Definition is_byte_slice (n : node) : bool :=
-  is_bytes_node n ||
-  match n_typ n, n_slct n with
-  | typeSlice, Some en => negb (n_ptr en) && (String.eqb (n_typn en) "uint8" || String.eqb (n_typn en) "byte")
-  | _, _ => false
+  match n_typ n with
+  | typeSlice => String.eqb (n_typn n) "[]byte" || String.eqb (n_typn n) "[]uint8"
+  | _ => false
   end.
 
 Definition rinspect (fx : bool) (d : rdyn) (key : string) : rout :=
